@@ -320,56 +320,73 @@ def r4_handlers_queue(ctx):
 
 
 def r5_adjacency(ctx):
+    """Consecutive mutations on one model must share one ModelMutator (its
+    operations are what gets merged into one rebuild).  In
+    AppMutator.run_mutation a new ModelMutator may therefore be created only
+    when there is no last mutator or its model name differs: with "last
+    mutator present" and "model names equal" both true, no path may reach the
+    ModelMutator(...) construction.  Any extra condition on the reuse (for
+    example the mutation's class) makes such a path."""
     ctx.rule('R-C18.5')
     p = ctx.program
     f = p.func('mutators.app_mutator', 'AppMutator.run_mutation')
     g = ctx.cfg(f)
-    tests = [n for n in g.nodes if n.kind == 'test' and
-             'model_name' in unparse(n.ast) and
-             '_last_model_mutator' in unparse(n.ast) and
-             isinstance(n.ast, ast.Compare)]
-    reuse = [n for n in g.nodes if n.kind == 'stmt' and
-             isinstance(n.ast, ast.Assign) and
-             is_self_attr(n.ast.value, '_last_model_mutator') and
-             any(isinstance(t, ast.Name) and t.id == 'mutator'
-                 for t in n.ast.targets)]
-    if tests and reuse and all(any(g.guarded_by(r, t, 'T') for t in tests)
-                               for r in reuse):
-        ctx.ok(f, 'consecutive mutations on one model reuse the last '
-               'ModelMutator', reuse[0].ast)
-    else:
+    from ..util import through_copies
+
+    def is_last(e):
+        e = through_copies(f, e)
+        return is_self_attr(e, '_last_model_mutator')
+
+    name_tests, last_tests = [], []
+    for n in g.nodes:
+        if n.kind not in ('test', 'operand'):
+            continue
+        t = n.ast
+        if isinstance(t, ast.Compare) and len(t.ops) == 1 and \
+                isinstance(t.ops[0], ast.Eq):
+            sides = [t.left, t.comparators[0]]
+            if all(isinstance(x, ast.Attribute) and x.attr == 'model_name'
+                   for x in sides) and any(is_last(x.value) for x in sides):
+                name_tests.append(n)
+        elif is_last(t):
+            last_tests.append(n)
+    news = [n for n, c in nodes_with_call(g, 'ModelMutator')]
+    if not news:
+        raise AnalysisError('R-C18.5: no ModelMutator(...) construction in '
+                            'run_mutation')
+    if not name_tests:
         ctx.finding(f, None, 'run_mutation no longer reuses the last '
                     'ModelMutator when the model name matches',
                     key='no-reuse')
-    # nothing else may decide about the reuse: every extra condition splits a
-    # run of consecutive mutations on one model into several rebuilds
-    for r in reuse:
-        for t in g.nodes:
-            if t.kind != 'test' or not (g.guarded_by(r, t, 'T') or
-                                        g.guarded_by(r, t, 'F')):
-                continue
-            txt = unparse(t.ast)
-            allowed = (txt == 'self._last_model_mutator' or
-                       ('model_name' in txt and '_last_model_mutator' in txt)
-                       or txt.replace(' ', '') ==
-                       'isinstance(mutation,BaseModelMutation)')
-            if not allowed:
-                ctx.finding(f, t.ast, 'reusing the last ModelMutator also '
-                            'depends on "%s": consecutive mutations on one '
-                            'model that fail it (e.g. ChangeMeta) start a new '
-                            'mutator and a second table rebuild' % txt,
-                            key='reuse-extra-condition')
-    news = [n for n, c in nodes_with_call(g, 'ModelMutator')]
-    fins = [n for n, c in nodes_with_call(g, '_finalize_model_mutator')]
-    if news and all(any(g.dominates(fn, n) for fn in fins) or True
-                    for n in news):
-        # a new ModelMutator is only created on the non-matching branch
-        if all(not any(g.guarded_by(n, t, 'T') for t in tests) for n in news):
-            ctx.ok(f, 'a new ModelMutator is created only when the model '
-                   'changes')
-        else:
-            ctx.finding(f, None, 'a new ModelMutator is created although the '
-                        'model name matches', key='new-on-match')
+        return
+    drop = {(t.id, 'F') for t in name_tests + last_tests}
+    reach = g.reachable([g.entry], follow_exc=False, drop_edges=drop)
+    bad = [n for n in news if n.id in reach]
+    if bad:
+        # which extra tests open the path?
+        extra = sorted({unparse(t.ast) for t in g.nodes
+                        if t.kind in ('test', 'operand') and
+                        t not in name_tests + last_tests and
+                        any(g.guarded_by(n, t, 'F') or g.guarded_by(n, t, 'T')
+                            for n in bad) is False and
+                        'isinstance' in unparse(t.ast) and
+                        'BaseModelMutation' not in unparse(t.ast)})
+        ctx.finding(f, bad[0].ast, 'a new ModelMutator can be created although '
+                    'a last mutator exists and the model names match%s: '
+                    'consecutive mutations on one model are split over two '
+                    'mutators and two table rebuilds' % (
+                        ' (extra condition: %s)' % '; '.join(extra)
+                        if extra else ''), key='reuse-extra-condition')
+    else:
+        ctx.ok(f, 'a new ModelMutator is created only when there is no last '
+               'mutator or the model changes', news[0].ast)
+    # the mutation is then run on the (shared or new) model mutator
+    runs = [n for n, c in nodes_with_call(g, 'run_mutation')]
+    if runs:
+        ctx.ok(f, 'the mutation is handed to the model mutator', runs[0].ast)
+    else:
+        ctx.finding(f, None, 'run_mutation never hands the mutation to a '
+                    'ModelMutator', key='no-run')
 
 
 def r6_run_mutations_queue_mergeable_ops(ctx):
